@@ -9,6 +9,15 @@ F = ["err", "rty", "stall", "lock", "cti", "bte"]
 CTI = [0, 1, 2, 7]
 
 
+class EqIntr(wishbone.Interface):
+    """a user's interface class with value semantics: same parameters → equal and same hash (the signals differ)"""
+    def __eq__(self, other):
+        return isinstance(other, EqIntr) and self.signature == other.signature
+
+    def __hash__(self):
+        return hash(("EqIntr", self.addr_width, self.data_width, self.granularity))
+
+
 def gen_case(seed, idx, ncycles, prop):
     return {"seed": seed, "idx": idx, "ncycles": ncycles, "prop": prop}
 
@@ -38,6 +47,7 @@ def run_impl(case):
                 "mixed": tuple(wishbone.Feature(f) if k % 2 else f for k, f in enumerate(sorted(bfeat)))}[spell]
     arb = wishbone.Arbiter(addr_width=aw, data_width=dw, granularity=gran, features=fspelled)
     intrs, ifeat, igran = [], [], []
+    eq_style = lib.rng_for(case["seed"], case["idx"], 838).choice(["plain"] * 6 + ["path-less", "value-eq", "same-path"])
     pre = 0
     ghosts = []
     for i in range(n):
@@ -55,7 +65,16 @@ def run_impl(case):
             pre += 1
         fs = set(f for f in F if rnd.random() < .5) | (bfeat & {"err", "rty"})
         g = rnd.choice([x for x in (8, 16, 32, 64) if gran <= x <= dw])
-        it = wishbone.Interface(addr_width=aw, data_width=dw, granularity=g, features=fs)
+        # usage style (own stream): interfaces without a path (all signals carry the same names), or instances of a user's
+        # subclass that compares by value — equal parameters, equal objects, yet distinct initiators
+        if eq_style == "path-less":
+            it = wishbone.Signature(addr_width=aw, data_width=dw, granularity=g, features=fs).create()
+        elif eq_style == "value-eq":
+            it = EqIntr(addr_width=aw, data_width=dw, granularity=g, features=fs)
+        elif eq_style == "same-path":
+            it = wishbone.Interface(addr_width=aw, data_width=dw, granularity=g, features=fs, path=("core", "bus"))
+        else:
+            it = wishbone.Interface(addr_width=aw, data_width=dw, granularity=g, features=fs)
         arb.add(it)
         intrs.append(it); ifeat.append(fs); igran.append(g)
     bselw = dw // gran
